@@ -44,6 +44,7 @@ STUBS = ['the command object passed to fork() is a stand-in exposing only .uid']
 OUTSIDE = ['maildir directory scans (stale toc)', 'views larger than the bound']
 
 _g: dict = {}
+_ig: dict = {}     # bindings of the IDLE streaming scenario
 
 
 def setup() -> None:
@@ -62,6 +63,15 @@ def setup() -> None:
     _g.update(locals())
     from checks import c02
     c02.setup()
+    from checks import _sim
+    _ig.update(_sim.bindings())
+    _ig['_sim'] = _sim
+    from pymap.imap import IMAPConnection
+    from pymap.backend.dict import Login
+    from pymap.user import UserMetadata
+    from pymap.context import subsystem, connection_exit
+    _ig.update({'IMAPConnection': IMAPConnection, 'Login': Login, 'UserMetadata': UserMetadata, 'subsystem': subsystem,
+                'connection_exit': connection_exit})
 
 
 class _Cmd:
@@ -203,10 +213,23 @@ def harnesses(tier):
         hs.append(Harness('session_history[m=%d,d=%d,ops=%d]' % (m, d, len(ops)), c02._harness(m, d, ops, 'c01'),
                           {'initial_messages': m, 'history_depth': d, 'ops': ops, 'sessions': 2},
                           replay='history', task_budget=40))
+    # a client idling on the real connection loop while another session changes the mailbox (changes pending
+    # at IDLE start, bursts while idling, DONE or a wrong line): shadow client built from the bytes received
+    from checks import _idle
+    for mm, npre, bursts in ([(2, 1, (1,)), (2, 0, (1, 1))] if tier == 'quick' else
+                             [(2, 1, (1,)), (2, 0, (1, 1)), (3, 2, (1,)), (2, 1, (1, 1)), (3, 1, (2,))]):
+        hs.append(Harness('idle_stream[m=%d,pending=%d,bursts=%s]' % (mm, npre, '+'.join(map(str, bursts))),
+                          _idle.harness(_ig, mm, npre, bursts),
+                          {'initial_messages': mm, 'pending_at_idle_start': npre, 'bursts_while_idling': list(bursts),
+                           'ops': _idle.B_OPS, 'sequence_numbers': 'symbolic'}, replay='idle', task_budget=40))
     return hs
 
 
 def replay(harness, w):
+    if harness == 'idle':
+        from checks import _idle
+        bad = _idle.replay(w)
+        return {'violates': bool(bad), 'detail': bad[:3], 'category': 'idle: ' + (bad[0] if bad else '')[:60]}
     if harness == 'history':
         from checks import c02
         return c02.replay(harness, w)
